@@ -184,3 +184,47 @@ def cfg_key(cfg):
         (j["parent"], j["sched"], j["crit"], j["forever"], tuple(sorted(j["reqs"])),
          (j["window"], j["timeout"], j["sdto"]) if j["sched"] else (j["dur"], j["out"], j["cdur"], j["sdur"]))
         for j in cfg["jobs"]) + (cfg["pure_root"],)
+
+
+def enumerate_small():
+    """Exhaustive small scope: every tree of the two shapes below over a reduced parameter domain
+    (durations 0/1, so every run terminates and ties abound).
+      (a) a root with one or two atomic jobs (with or without a requirement between them);
+      (b) a root with a nested scheduler holding one atomic job, and optionally one atomic sibling
+          that may require the nested scheduler."""
+    import itertools
+    rnd = random.Random(0)
+
+    def atom(parent, crit, forever, out, dur, sdur, reqs=()):
+        return J(parent, rnd, crit=crit, forever=forever, out=out, dur=dur, sdur=sdur, reqs=list(reqs), hash=0)
+
+    B = (False, True)
+    atoms = [dict(crit=a, forever=b, out=o, dur=d, sdur=sd)
+             for a in B for b in B for o in ("ret", "exc") for d in (0, 1) for sd in (0, 1)]
+    roots = [dict(window=w, timeout=t, crit=cr, sdto=sd, pure=p)
+             for w in (0, 1) for t in (None, 0, 1) for cr in B for sd in (0, None) for p in B]
+
+    def mk(root, jobs):
+        r = S(0, rnd, window=root["window"], timeout=root["timeout"], crit=root["crit"], sdto=root["sdto"], hash=0)
+        js = [r] + jobs
+        for i, j in enumerate(js):
+            j["hash"] = i
+        return {"jobs": js, "pure_root": root["pure"], "admissible": True}
+
+    for root in roots:
+        for a in atoms:
+            yield mk(root, [atom(0, **a)])
+        for a, b in itertools.product(atoms, atoms):
+            for edge in B:
+                yield mk(root, [atom(0, **a), atom(0, reqs=[1] if edge else [], **b)])
+    roots_b = [dict(window=w, timeout=t, crit=True, sdto=1, pure=False) for w in (0, 1) for t in (None, 1)]
+    nests = [dict(window=w, timeout=t, crit=cr) for w in (0, 1) for t in (None, 1) for cr in B]
+    for root in roots_b:
+        for ns in nests:
+            for a in atoms:
+                n = S(0, rnd, window=ns["window"], timeout=ns["timeout"], crit=ns["crit"], sdto=1)
+                yield mk(root, [n, atom(1, **a)])
+                for b in atoms:
+                    for edge in B:
+                        n = S(0, rnd, window=ns["window"], timeout=ns["timeout"], crit=ns["crit"], sdto=1)
+                        yield mk(root, [n, atom(1, **a), atom(0, reqs=[1] if edge else [], **b)])
